@@ -17,6 +17,7 @@ This private submodule is *not* intended for importation by downstream callers.
 
 # ....................{ IMPORTS                            }....................
 from beartype.roar import BeartypeValeSubscriptionException
+from beartype.typing import Optional
 from beartype.vale._util._valeutilfunc import die_unless_validator_tester
 from beartype.vale._util._valeutiltext import format_diagnosis_line
 from beartype.vale._util._valeutiltyping import (
@@ -458,6 +459,35 @@ class BeartypeValidator(object):
             indent_level_inner=indent_level_inner,
             is_obj_valid=is_obj_valid,
         )
+
+    def _is_valid_unless_shortcircuited_raises(
+        self, obj: object, is_shortcircuited: bool) -> Optional[bool]:
+        '''
+        :data:`True` or :data:`False` only if the passed object satisfies or
+        violates this validator *or* :data:`None` if this validator has been
+        short-circuited by a prior sibling (and was thus *not* intended to be
+        called on this object) *and* calling this validator raises an exception.
+
+        This method generalizes the exception handling performed by the
+        :meth:`get_diagnosis` method of lowest-level validators to higher-level
+        validators wrapping lower-level validators (e.g., via a set theoretic
+        operator), which would otherwise propagate exceptions raised by
+        short-circuited lower-level validators.
+        '''
+
+        # If this validator has been short-circuited by a prior sibling...
+        if is_shortcircuited:
+            # Attempt to decide whether that object satisfies this validator.
+            try:
+                return self.is_valid(obj)
+            # If doing so raises an exception, this short-circuited validator
+            # was *NOT* intended to be called under short-circuiting.
+            except Exception:
+                return None
+        # Else, this validator is *NOT* short-circuited.
+
+        # Defer to this validator, propagating exceptions up the call stack.
+        return self.is_valid(obj)
 
     # ..................{ DUNDERS ~ operator                 }..................
     # Define a domain-specific language (DSL) enabling callers to dynamically
